@@ -418,17 +418,21 @@ def worker(seed):
             hist = [{"output": c["env"]["output"], "model": c["model"]} for c in _RECENT[-depth:]] if depth else []
             c2 = dict(case, priors=hist + list(case["priors"]))
             o2 = execute(c2, isolated=True)
-            if want & {s for s, _ in o2["problems"]}:
+            if o2["problems"]:          # any escape confirms that the property is violated from a clean state
                 confirmed = (c2, o2)
                 break
             if depth >= len(_RECENT):
                 break
         if confirmed is None:
-            raise HarnessError(f"C37 seed {seed}: violation {sorted(want)} seen in the worker process did not reproduce in a fresh "
-                               f"process, not even with the last {min(8, len(_RECENT))} exports of that worker as explicit history")
-        case, o2 = confirmed
-        o2.pop("log", None)
-        out["problems"] = o2["problems"]
+            # seen only with what older cases left behind in this worker process: not reportable without a replay;
+            # counted, and turned into a harness error by the driver if nothing reproducible is found in the batch
+            out["unconfirmed"] = sorted(want)
+            out["problems"] = []
+            out["probes"]["violation-seen-in-worker-but-not-reproducible-from-clean-state"] = 1
+        else:
+            case, o2 = confirmed
+            o2.pop("log", None)
+            out["problems"] = o2["problems"]
     _RECENT.append(case)
     del _RECENT[:-8]
     out["sample"] = None
